@@ -1123,7 +1123,8 @@ Proof.
   change (octets "CONNECT") with (bstr "CONNECT"). change (octets "") with (@nil N).
   intros Hp Hc. destruct (list_N_eqb method (bstr "CONNECT")) eqn:E; cbn [andb].
   - intros H. exact H.
-  - specialize (Hc eq_refl). destruct p as [x|]; [|congruence]. rewrite lenN_zero, Hp.
+  - specialize (Hc eq_refl). destruct p as [x|]; [|congruence]. cbn [value_is is_some].
+    change (octets "") with (@nil N). rewrite lenN_zero, Hp.
     cbn [is_some negb orb andb]. intros H. rewrite H. reflexivity.
 Qed.
 
@@ -1142,8 +1143,8 @@ Theorem C13_send_except_known :
 Proof.
   intros method us ua up h2 fields w Hr Hs Hk. unfold send_request in Hs.
   destruct (send_request_pseudo method us ua up h2) as [P|] eqn:EP; [|discriminate].
-  destruct (check_headers fields) eqn:Ec; [|discriminate]. inversion Hs as [Hw]. clear Hs.
-  destruct (send_block_ok P fields Hr Ec) as (B1 & B2 & _). rewrite Hw in B1, B2.
+  destruct (check_headers fields) eqn:Ec; [|discriminate]. injection Hs as Hw.
+  destruct (send_block_ok P fields Hr Ec) as (B1 & B2 & _). rewrite Hw in B1, B2. rewrite ?Hw.
   unfold malformed. cbn [kind_received_by negb orb]. rewrite B1. cbn [orb].
   rewrite (bad_request_ps_eq w P (fun h Hh => eq_sym (B2 h Hh))).
   assert (Hk' : known_send_ps P = false).
@@ -1177,16 +1178,17 @@ Theorem C13_send_push_except_known :
 Proof.
   intros method us ua up fields w Hr Hs Hk. unfold send_push in Hs.
   destruct (validate_push method fields) eqn:Ev; [|discriminate].
-  destruct (check_headers fields) eqn:Ec; [|discriminate]. cbn [andb] in Hs. inversion Hs as [Hw]. clear Hs.
-  set (P := push_request_pseudo method us ua up) in *.
-  destruct (send_block_ok P fields Hr Ec) as (B1 & B2 & B3). rewrite Hw in B1, B2, B3.
+  destruct (check_headers fields) eqn:Ec; [|discriminate].
+  remember (push_request_pseudo method us ua up) as P eqn:EP.
+  assert (Hw : pseudo_fields P ++ hm_order fields = w) by (cbn [andb] in Hs; congruence). clear Hs.
+  destruct (send_block_ok P fields Hr Ec) as (B1 & B2 & B3). rewrite Hw in B1, B2, B3. rewrite ?Hw.
   unfold malformed. cbn [kind_received_by negb orb]. rewrite B1. cbn [orb]. unfold bad_pushed_request.
   rewrite (bad_request_ps_eq w P (fun h Hh => eq_sym (B2 h Hh))).
   assert (Hk' : known_send_ps P = false).
   { rewrite <- (known_send_eq w P B2). unfold KnownSend in Hk. destruct (known_send w); [congruence|reflexivity]. }
   unfold validate_push in Ev. apply andb_true_iff in Ev. destruct Ev as (Ev1 & Ev2).
-  pose proof (B2 HMethod ltac:(discriminate)) as Hm. cbn [pname ps_get] in Hm. rewrite Hm.
-  assert (HPm : p_method P = Some method) by reflexivity. rewrite HPm. cbn [value_is].
+  pose proof (B2 HMethod ltac:(discriminate)) as Hm. change (value_of ":method" w = p_method P) in Hm. rewrite Hm.
+  assert (HPm : p_method P = Some method) by (subst P; reflexivity). rewrite HPm. cbn [value_is].
   change (octets "GET") with (bstr "GET"). change (octets "HEAD") with (bstr "HEAD"). rewrite Ev2. cbn [negb orb].
   assert (Hdl : match declared_length w with Some n => negb (n =? 0) | None => false end = false).
   { unfold declared_length. rewrite B3. rewrite first_value_all in Ev1.
@@ -1204,7 +1206,7 @@ Proof.
     destruct up as [p|]; [destruct (lenN p =? 0) eqn:E0|]; try destruct (list_N_eqb method (bstr "OPTIONS")); auto. }
   assert (Hp2 : list_N_eqb method (bstr "CONNECT") = false -> path <> None).
   { subst path. intros ->. discriminate. }
-  exact (request_pseudo_shape method _ ua path Hp1 Hp2 Hk').
+  rewrite ?orb_false_r. exact (request_pseudo_shape method _ ua path Hp1 Hp2 Hk').
 Qed.
 
 (* the known class is real *)
@@ -1224,4 +1226,113 @@ Example C13_send_nonvacuous :
 Proof.
   eexists. split; [vm_compute; reflexivity|]. split; [|vm_compute; reflexivity].
   unfold KnownSend. vm_compute. discriminate.
+Qed.
+
+(* ------------------------------------------------------------------------------------------ *)
+(* C13 at the level of the stream machine that is compared with the implementation: whatever
+   [step] queues for the application comes from the frame at hand, and is justified *)
+
+Definition justified (c : config) (s : sstate) (f : frame) (e : event) : Prop :=
+  match e, f with
+  | EHead m, FHeaders fs eos v =>
+      forall k hk, delivers k (Deliver m) = true ->
+        (accounted k hk = true -> s_cl s <> CLHead) -> ~ KnownClass k fs ->
+        malformed_block (c_role c) k hk eos fs = false
+  | ETrailers _, FHeaders fs eos v =>
+      forall hk, ~ KnownClass Trailers fs -> malformed_block (c_role c) Trailers hk eos fs = false
+  | EData n, FData len _ => n = len
+  | _, _ => False
+  end.
+
+Definition justified_push (c : config) (f : frame) (rq : request) : Prop :=
+  match f with
+  | FPush fs v => c_role c = Client /\
+      forall hk eos, malformed_block Client PushedRequest hk eos fs = false
+  | _ => False
+  end.
+
+Lemma recv_head_kinds r ext cl eos v b m cl' o :
+  recv_head r ext cl eos v b = (Deliver m, cl', o) ->
+  forall k, delivers k (Deliver m) = true -> k = Request \/ k = Response \/ k = Informational.
+Proof.
+  unfold recv_head.
+  repeat match goal with
+  | |- context [if ?c then _ else _] => destruct c
+  | |- context [match ?c with Some _ => _ | None => _ end] => destruct c
+  | |- context [match ?c with Client => _ | Server => _ end] => destruct c
+  end; intros H; inversion H; subst; intros k Hk; destruct k; cbn [delivers] in Hk; try discriminate; auto.
+Qed.
+
+Ltac unch :=
+  solve [ exists [], []; rewrite !app_nil_r; unfold stream_error, codec_reset;
+          repeat match goal with
+          | |- context [if ?b then _ else _] => destruct b
+          | |- context [match s_recv ?s with RAwait => _ | _ => _ end] => destruct (s_recv s)
+          end; repeat split; try reflexivity; try constructor ].
+
+Theorem C13_stream_step :
+  forall (c : config) (s : sstate) (f : frame),
+  exists newq newp,
+    s_queue (step c s f) = s_queue s ++ newq /\ s_pushq (step c s f) = s_pushq s ++ newp /\
+    Forall (justified c s f) newq /\ Forall (justified_push c f) newp.
+Proof.
+  intros c s f. unfold step. destruct (s_conn s) as [code|]; [unch|].
+  destruct f as [fs eos v|len eos|fs v].
+  - (* HEADERS *)
+    unfold step_headers. destruct (load (c_max c) fs) as [b| | |] eqn:El; [|unch|unch|unch].
+    destruct (s_recv s) eqn:Er.
+    + (* awaiting headers *)
+      destruct (recv_head (c_role c) (c_ext c) (s_cl s) eos v b) as [[o cl'] opened] eqn:Eh.
+      destruct o as [m| | | |]; [|unch|unch|unch|unch].
+      exists [EHead m], []. rewrite app_nil_r. split; [reflexivity|]. split; [reflexivity|].
+      split; [|constructor]. constructor; [|constructor]. cbn [justified].
+      intros k hk Hd Hacc Hk.
+      destruct (malformed_block (c_role c) k hk eos fs) eqn:Em; [|reflexivity]. exfalso.
+      pose proof (C13_recv_except_known (c_role c) k hk (c_ext c) (c_max c) (s_cl s) eos v fs Hk Hacc Em) as X.
+      assert (Y : model_recv (c_role c) k (c_ext c) (c_max c) (s_cl s) eos v fs = Deliver m).
+      { destruct (recv_head_kinds _ _ _ _ _ _ _ _ _ Eh k Hd) as [->|[->| ->]]; cbn [model_recv];
+          unfold model_head, of_load; rewrite El, Eh; reflexivity. }
+      rewrite Y, Hd in X. discriminate.
+    + (* streaming: trailers *)
+      destruct (recv_trailers (s_cl s) eos b) as [o closed] eqn:Et.
+      destruct o as [m| | | |]; [|unch|unch|unch|unch].
+      destruct m as [x|x|x|x|t]; [unch|unch|unch|unch|].
+      exists [ETrailers t], []. rewrite app_nil_r. split; [reflexivity|]. split; [reflexivity|].
+      split; [|constructor]. constructor; [|constructor]. cbn [justified].
+      intros hk Hk.
+      destruct (malformed_block (c_role c) Trailers hk eos fs) eqn:Em; [|reflexivity]. exfalso.
+      assert (Hacc : accounted Trailers hk = true -> s_cl s <> CLHead) by (destruct hk; discriminate).
+      pose proof (C13_recv_except_known (c_role c) Trailers hk (c_ext c) (c_max c) (s_cl s) eos v fs Hk Hacc Em) as X.
+      cbn [model_recv] in X. unfold model_trailers, of_load in X. rewrite El, Et in X. cbn [fst delivers] in X. discriminate.
+    + unch.
+    + unch.
+    + unch.
+    + unch.
+  - (* DATA *)
+    unfold step_data. destruct (s_recv s) eqn:Er; try unch.
+    destruct (recv_data_cl (s_cl s) len eos) as [cl' closed ev|]; [|unch].
+    destruct ev.
+    + exists [EData len], []. rewrite app_nil_r. split; [reflexivity|]. split; [reflexivity|].
+      split; [|constructor]. constructor; [|constructor]. reflexivity.
+    + unch.
+  - (* PUSH_PROMISE *)
+    unfold step_push. destruct (lenN fs =? 0); [unch|].
+    destruct (load (c_max c) fs) as [b| | |] eqn:El; [|unch|unch|unch].
+    destruct (s_recv (next_promised s)) eqn:Er; try unch.
+    + destruct (negb (is_client c)) eqn:Ec; [unch|].
+      destruct (recv_push v b) as [m| | | |] eqn:Ep; try unch.
+      destruct m as [x|x|x|rq|x]; try unch.
+      exists [], [rq]. rewrite app_nil_r. split; [reflexivity|]. split; [reflexivity|].
+      split; [constructor|]. constructor; [|constructor]. cbn [justified_push].
+      assert (Hr : c_role c = Client) by (unfold is_client in Ec; destruct (c_role c); [reflexivity|discriminate]).
+      split; [exact Hr|]. intros hk eos'. apply (C13_pushed (c_max c) v fs hk eos').
+      unfold model_push, of_load. rewrite El, Ep. reflexivity.
+    + destruct (negb (is_client c)) eqn:Ec; [unch|].
+      destruct (recv_push v b) as [m| | | |] eqn:Ep; try unch.
+      destruct m as [x|x|x|rq|x]; try unch.
+      exists [], [rq]. rewrite app_nil_r. split; [reflexivity|]. split; [reflexivity|].
+      split; [constructor|]. constructor; [|constructor]. cbn [justified_push].
+      assert (Hr : c_role c = Client) by (unfold is_client in Ec; destruct (c_role c); [reflexivity|discriminate]).
+      split; [exact Hr|]. intros hk eos'. apply (C13_pushed (c_max c) v fs hk eos').
+      unfold model_push, of_load. rewrite El, Ep. reflexivity.
 Qed.
